@@ -53,6 +53,10 @@ func (ch *chain) currentOwnerKey(v *chainView, tx *hTx) (int, bool) {
 			key = "gov/upgrade"
 		}
 		owner = aclOwner(acl, key)
+		if len(owner) == 0 {
+			// nobody is named for this key: let the most privileged party, the owner of the list itself, try
+			owner = aclOwner(acl, "gov/acl")
+		}
 	case "dao":
 		owner = ch.daoOwner(v)
 	default:
@@ -273,6 +277,9 @@ func (ch *chain) buildTx(tx *hTx) *builtTx {
 	var feeCoins sdk.Coins
 	if fee.IsPositive() {
 		feeCoins = sdk.NewCoins(sdk.NewCoin(sdk.DefaultStakeDenom, fee))
+	}
+	if tx.FeeDust > 0 {
+		feeCoins = feeCoins.Add(sdk.NewCoins(sdk.NewCoin(simDustDenom, sdk.NewInt(tx.FeeDust))))
 	}
 	bt.Fee = feeCoins
 	signKey := from
